@@ -24,7 +24,7 @@ from harness.asyncgen import TrackLoop, site_class
 from harness.core import Atom
 
 ID = "C36"
-LEAN_MODULES = ["JinjaV.Props.C36"]
+LEAN_MODULES = ["JinjaV.Props.C36", "JinjaV.Props.C36Adv"]
 GEN = [translate.async_sites.gen]
 LEVEL = "proof"
 TRUSTED = [
@@ -42,6 +42,12 @@ ASSUMPTIONS = [
     "asyncio delivers a cancellation only at a suspension point of the task; unwinding (finally: await gen.aclose()) "
     "contains no further suspension point (generated code has no await in a finally except the aclose itself)",
     "user code called from a template does not swallow CancelledError/GeneratorExit",
+    "scope of 'generators the render opens': the generators the template machinery itself creates (template roots, blocks, "
+    "includes, parent templates, loop filters, generate_async). An async generator that arrives as DATA - passed in the "
+    "context, returned by a user function called from the template, or produced by an async filter (map/select/...) - is "
+    "iterated through auto_aiter without a bracket and is the caller's to close, exactly as with a plain Python `async for`; "
+    "such generators are identified by their code object, counted in the evidence "
+    "(data_generators_left_open_by_bare_data_iteration) and never reported",
 ]
 CLAIM = dict(
     category="proof",
@@ -55,19 +61,25 @@ CLAIM = dict(
          "finished (normally, by aclose, by cancellation) every opened generator is closed, with no finaliser in the model; "
          "bracketed_root_not_abandoned; allBracketed_iff_no_bare; no_attack_closed — without stop/cancel even bare iteration closes everything; "
          "bare_can_leak_on_stop / _on_cancel / bare_abandons_subtree — a bare open leaves the generator (and everything it "
-         "opened) unclosed; library_sites_closing, entry_points_closing, library_entry_closed — over Gen/AsyncSites.lean "
+         "opened) unclosed; (Props/C36Adv.lean) exec_payload, exec_rel, run_depends_on_first_attack, "
+         "firstAttack_singleAttack, run_eq_single_attack - a run depends on the adversary only through the position of its "
+         "first attack (later choices are never consumed), so the single attacks enumerated by the tie are all adversaries; "
+         "library_sites_closing, entry_points_closing, library_entry_closed — over Gen/AsyncSites.lean "
          "(regenerated from environment.py, nativetypes.py, runtime.py, async_utils.py on every run) no library site "
          "iterates bare, so render_async / generate_async / make_module_async / super() over a fully bracketed template "
          "body close everything. Tie: L-sem model-vs-CPython on random programs x every attack position; L-code every "
          "generated function of generated template sets (for/else/recursive loops with and without filters, blocks, super, "
          "extends, include, import, macros, call blocks, set/filter blocks, nested) classified and decided by the Lean "
          "driver; L-e2e stop after k chunks and cancel at the k-th await for every k through generate_async and "
-         "render_async, generators tracked by firstiter and inspected after the task has finished. Known finding: the "
-         "loop-filter generator of `{% for … if … %}` is iterated bare (C36:bare:loop-filter).",
+         "render_async, generators tracked by firstiter and inspected after the task has finished. Every generated function "
+         "of every template set must be allBracketed (no exception: the loop-filter generator of `{% for … if … %}`, formerly "
+         "iterated bare - finding F14 - is bracketed since /repo 78a2e7a; the witness template stays in the fixed corpus).",
     note="Trusted: Lean kernel; hand-written semantics Model/GenTree.lean (validated against CPython by correspondence); "
-         "the ast classifier of generated code; asyncio semantics. Partial: generators made by async filters and data "
-         "generators are out of scope; the static tree over-approximates dynamic runs by construction of the classifier, "
-         "not by proof.",
+         "the ast classifier of generated code; asyncio semantics. Scope: only generators created by the template "
+         "machinery (roots, blocks, includes, parents, loop filters, generate_async); async generators supplied as data "
+         "(context values, results of user functions, results of async filters) are iterated bare through auto_aiter and "
+         "are the caller's to close - counted in the evidence, not part of the claim. Partial: the static tree "
+         "over-approximates dynamic runs by construction of the classifier, not by proof.",
     design_ref="§5 C36",
 )
 
@@ -259,7 +271,7 @@ def l_sem(ctx, res, cov):
             adv = [] if attack is None else [False] * attack + [True]
             reqs.append([Atom("gentree-run"), stmts, adv])
             meta.append((stmts, attack, got, src))
-            if attack is not None:      # choices after the first attack are never consumed: any suffix gives the same run
+            if attack is not None:      # theorem run_depends_on_first_attack, also exercised through the driver
                 suffix_reqs.append(([Atom("gentree-run"), stmts, adv + [rng.random() < 0.5 for _ in range(4)]], len(reqs) - 1))
         shapes.add(core.sx(stmts))
     replies = core.driver_batch(reqs)
@@ -454,7 +466,7 @@ class TGen:
 
 
 FIXED_SETS = [
-    ({"main": "{% for x in xs if x >= 0 %}[{{ x }}]{% endfor %}"}, ["main"]),                         # F14 witness
+    ({"main": "{% for x in xs if x >= 0 %}[{{ x }}]{% endfor %}"}, ["main"]),                         # F14 witness (fixed 78a2e7a)
     ({"main": "{% for x in xs if x %}{{ aw(x) }}{% else %}E{% endfor %}"}, ["main"]),
     ({"main": "{% for x in xs %}[{{ aw(x) }}{{ loop.index }}]{% endfor %}"}, ["main"]),
     ({"main": "{% for x in ax() %}[{{ x }}]{% endfor %}"}, ["main"]),
@@ -664,9 +676,9 @@ def l_templates(ctx, res, cov, jinja2):
         if rep[0] != "ok":
             raise core.HarnessError(f"driver: {rep} for {core.sx(stmts)}")
         allb, nbare, labels = rep[1]
-        if not allb:
+        if not allb:      # every generated function must be fully bracketed (theorem bracketed_closed then applies to it)
             bare_functions += 1
-            for lab in labels:
+            for lab in (labels or ["unknown"]):
                 static_bare.setdefault(lab, {"templates": templates, "template": name, "function": fn})
     static_of = {c: static_of_cls(c) for c in leaks}
     explained = set()
